@@ -29,13 +29,26 @@ type ExecCase struct {
 	Silent bool
 	TZ     bool
 	Zone   string
+	// Spare: the arrays of the document are slices of one backing array, each
+	// followed directly by the next one's elements (h.SpareCap), so that an
+	// append to any of them writes into the document.
+	Spare bool
 }
 
 func (e *ExecCase) Case() h.Case {
-	return h.Case{Kind: "exec", Path: e.Text, Doc: e.Doc, UseNum: e.UseNum, Vars: e.Vars, Silent: e.Silent, TZ: e.TZ, Zone: e.Zone}
+	cs := h.Case{Kind: "exec", Path: e.Text, Doc: e.Doc, UseNum: e.UseNum, Vars: e.Vars, Silent: e.Silent, TZ: e.TZ, Zone: e.Zone}
+	if e.Spare {
+		cs.Extra = map[string]string{"spare": "1"}
+	}
+	return cs
 }
 
-func (e *ExecCase) DocValue() any { return h.Decode(e.Doc, e.UseNum) }
+func (e *ExecCase) DocValue() any {
+	if e.Spare {
+		return h.SpareCap(h.Decode(e.Doc, e.UseNum))
+	}
+	return h.Decode(e.Doc, e.UseNum)
+}
 
 func (e *ExecCase) Opts() h.Opts {
 	return h.Opts{Vars: h.DecodeVars(e.Vars, e.UseNum), Silent: e.Silent, TZ: e.TZ, Zone: h.ParseZone(e.Zone)}
@@ -54,7 +67,7 @@ func CaseFrom(cs h.Case) (*ExecCase, error) {
 	if err != nil {
 		return nil, err
 	}
-	return &ExecCase{Text: cs.Path, P: p, Abs: gen.FromAST(p.AST), Doc: cs.Doc, UseNum: cs.UseNum, Vars: cs.Vars, Silent: cs.Silent, TZ: cs.TZ, Zone: cs.Zone}, nil
+	return &ExecCase{Text: cs.Path, P: p, Abs: gen.FromAST(p.AST), Doc: cs.Doc, UseNum: cs.UseNum, Vars: cs.Vars, Silent: cs.Silent, TZ: cs.TZ, Zone: cs.Zone, Spare: cs.Extra["spare"] == "1"}, nil
 }
 
 // ExecGen generates ExecCases.
@@ -71,6 +84,7 @@ type ExecGen struct {
 	// deterministic. (Multi-member expansions are covered by the model-based
 	// checks, which enumerate the member orders.)
 	Deterministic bool
+	seq           int
 }
 
 func NewExecGen(r *rand.Rand) *ExecGen {
@@ -104,6 +118,8 @@ func (eg *ExecGen) Next() *ExecCase {
 		if ec.UseNum && eg.R.IntN(16) == 0 {
 			ec.Doc = gen.InjectHuge(eg.R, ec.Doc)
 		}
+		eg.seq++
+		ec.Spare = eg.seq%2 == 0
 		return ec
 	}
 }
